@@ -697,11 +697,31 @@ func c07Keys(m map[string]bool) string {
 	return strings.Join(ks, ",")
 }
 
-// c07Goroutines returns "id -> dump block" of goroutines with library frames,
-// excluding ids of the baseline.
+var (
+	c07StackMu  sync.Mutex
+	c07StackBuf = make([]byte, 256<<10)
+)
+
+// c07Goroutines returns "id -> dump block" of all goroutines (other than the
+// calling one) whose stack has a library frame, excluding ids of the baseline.
+// (Same as vk.GoroutinesIn but with a reused buffer: it runs after every call.)
 func c07Goroutines(baseline map[string]bool) map[string]string {
+	c07StackMu.Lock()
+	defer c07StackMu.Unlock()
+	var dump string
+	for {
+		n := runtime.Stack(c07StackBuf, true)
+		if n < len(c07StackBuf) {
+			dump = string(c07StackBuf[:n])
+			break
+		}
+		c07StackBuf = make([]byte, 2*len(c07StackBuf))
+	}
 	out := map[string]string{}
-	for _, b := range vk.GoroutinesIn(c07LibFrame) {
+	for i, b := range strings.Split(dump, "\n\n") {
+		if i == 0 || !strings.Contains(b, c07LibFrame) {
+			continue
+		}
 		f := strings.Fields(b)
 		if len(f) < 2 {
 			continue
